@@ -271,8 +271,10 @@ GrHolds(n, idx) ==
    by its three-term recurrence (cross-checked against DetLaplace for n <= 6). *)
 SExps == <<-70, -27, 0, 27, 70>>
 TriDiag(n) == TLCEval([i \in 1..n |-> TLCEval([j \in 1..n |-> IF i = j THEN 2 ELSE IF Abs(i - j) = 1 THEN -1 ELSE 0])])
-RECURSIVE TriDet(_)
-TriDet(m) == IF m = 0 THEN 1 ELSE IF m = 1 THEN 2 ELSE 2 * TriDet(m - 1) - TriDet(m - 2)
+(* det T_m = 2 det T_(m-1) - det T_(m-2), det T_0 = 1, det T_1 = 2; iterated on the pair <<det T_(m-1), det T_m>> *)
+RECURSIVE TriDetPair(_)
+TriDetPair(m) == IF m = 1 THEN <<1, 2>> ELSE LET q == TriDetPair(m - 1) IN <<q[2], 2 * q[2] - q[1]>>
+TriDet(m) == IF m = 0 THEN 1 ELSE TriDetPair(m)[2]
 DiagVal(i) == ((i - 1) % 3) + 1
 DiagM(n) == TLCEval([i \in 1..n |-> TLCEval([j \in 1..n |-> IF i = j THEN DiagVal(i) ELSE 0])])
 MinI(a, b) == IF a < b THEN a ELSE b
@@ -289,7 +291,12 @@ ScLogTerms(c) ==
   ELSE TLCEval([v \in 1..3 |-> <<v, Cardinality({i \in 1..c.n : DiagVal(i) = v})>>])
 ScaledHolds(c) ==
   LET B == ScBase(c)  n == c.n IN
-  /\ MulII(B, ScInvNum(c)) = TLCEval([i \in 1..n |-> TLCEval([j \in 1..n |-> IF i = j THEN ScInvDen(c) ELSE 0])])
+  (* B is tridiagonal, so (B N)[i][j] has at most three terms (a generic 40x40 product is needlessly slow in TLC) *)
+  /\ \A i, j \in 1..n : Abs(i - j) > 1 => B[i][j] = 0
+  /\ LET N == ScInvNum(c) IN
+     \A i, j \in 1..n :
+        (IF i > 1 THEN B[i][i - 1] * N[i - 1][j] ELSE 0) + B[i][i] * N[i][j] + (IF i < n THEN B[i][i + 1] * N[i + 1][j] ELSE 0)
+          = IF i = j THEN ScInvDen(c) ELSE 0
   /\ IsSymmetric(B)
   /\ c.fam = "st" => (TriDet(n) = n + 1 /\ \A m \in 1..6 : TriDet(m) = DetLaplace(TriDiag(m)))
   /\ c.fam = "sd" => \A v \in 1..3 : v > 0
